@@ -1635,3 +1635,55 @@ M("c11-entry-key-without-tags", "C11", "scope.go",
   """			id := KeyForPrefixedStringMap(name, tags)
 			snap.counters[id] = &counterSnapshot{""", """			id := KeyForPrefixedStringMap(name, nil)
 			snap.counters[id] = &counterSnapshot{""", expect="O1 snapshot-entries")
+
+# ---------------------------------------------------------------- C05 identity
+M("c05-no-sort", "C05", "key_gen.go",
+  "	insertionSort(keys)\n", "", expect="O2 determinism")
+M("c05-sort-descending", "C05", "key_gen.go",
+  "		for j := i; j > 0 && keys[j] < keys[j-1]; j-- {", "		for j := i; j > 0 && keys[j] > keys[j-1]; j-- {", expect="O2 sort-shape")
+M("c05-value-by-iteration", "C05", "key_gen.go",
+  """	for _, m := range maps {
+		for k := range m {
+			keys = append(keys, k)
+		}
+	}
+""", """	var firstVal string
+	for _, m := range maps {
+		for k, v := range m {
+			keys = append(keys, k)
+			if firstVal == "" {
+				firstVal = v
+			}
+		}
+	}
+	_ = firstVal
+	buf = append(buf, firstVal...)
+""", expect="O2 determinism")
+M("c05-revert-separator-fix", "C05", "key_gen.go",
+  """	for i, k := range keys {
+		// n.b. Test the position, not the content of the last key: the empty
+		//      string is a valid key too.
+		if i > 0 {""", """	for _, k := range keys {
+		if len(lastKey) > 0 {""", expect="O3 separator-emission")
+M("c05-insert-under-raw-name", "C05", "scope.go",
+  """func (s *scope) Counter(name string) Counter {
+	name = s.sanitizer.Name(name)
+	if c, ok := s.counter(name); ok {
+		return c
+	}
+""", """func (s *scope) Counter(name string) Counter {
+	raw := name
+	name = s.sanitizer.Name(name)
+	if c, ok := s.counter(name); ok {
+		return c
+	}
+	defer func() { _ = raw }()
+""", kind="benign")
+M("c05-insert-different-key", "C05", "scope.go",
+  "	s.gauges[name] = g\n", "	s.gauges[s.fullyQualifiedName(name)] = g\n", expect="O1 get-or-create")
+M("c05-public-key-other-writer", "C05", "key_gen.go",
+  "	return keyForPrefixedStringMaps(prefix, stringMap)", "	return prefix + \"+\" + fmt.Sprint(stringMap)", expect="O4 same-writer", more=[("key_gen.go", "package tally\n", "package tally\n\nimport \"fmt\"\n")])
+M("c05-registry-key-drops-parent-tags", "C05", "scope_registry.go",
+  "	sanitizedKey = scopeRegistryKey(prefix, parent.tags, tags)", "	sanitizedKey = scopeRegistryKey(prefix, tags)", expect="O1 key-arguments")
+M("c05-keyforstringmap-prefix", "C05", "key_gen.go",
+  "	return KeyForPrefixedStringMap(nilString, stringMap)", "	return KeyForPrefixedStringMap(\"_\", stringMap)", expect="O4 same-writer")
